@@ -83,9 +83,13 @@ def run(req):
     want = req.get('obligation', '').split('/', 1)[-1]
     first_other = None
     last_why = ''
+    import time as _time
+    deadline = _time.time() + float(req.get('time_budget_s', 150))
     for i in range(budget * 5):
         if admissible >= budget:
             break
+        if _time.time() > deadline and admissible >= 5:
+            break       # the stated bound is what was actually run (reported as `admissible`)
         tried += 1
         try:
             case = gen(rng, req.get('model'))
